@@ -59,7 +59,7 @@ def gen(seed, run, tier='quick'):
     n_g = 3
     gconvs = []
     for k in range(n_g):
-        kind = rng.choice(['stub', 'stub', 'table', 'method'])
+        kind = rng.choice(['stub', 'stub', 'table', 'method', 'unhashable'])
         table = {}
         for a in range(3):
             for b in range(3):
@@ -80,7 +80,7 @@ def gen(seed, run, tier='quick'):
                                             str(rng.randrange(3, 9000) / 8)]
                     elif x < 0.6:
                         table[f"{a}{b}"] = ['raise']
-                    elif x < 0.66 and kind == 'stub':
+                    elif x < 0.66 and kind in ('stub', 'unhashable'):
                         # a converter that retires: when consulted for this
                         # pair it unregisters itself and declines
                         table[f"{a}{b}"] = ['expire']
@@ -97,6 +97,8 @@ def gen(seed, run, tier='quick'):
         'rem': rng.choice([0, 1, 3]),
         'regbad': rng.choice([0, 0, 1]),
         'unsafe': rng.choice([0, 1, 2]),
+        'regtmp': rng.choice([0, 0, 1, 2]),
+        'remtop': rng.choice([0, 0, 1]),
         'greg': rng.choice([0, 2, 3]),
         'grem': rng.choice([0, 1, 2]),
     }
@@ -180,6 +182,13 @@ def gen(seed, run, tier='quick'):
             else:
                 c = rng.randrange(n_mc)
             toks.append(['rem', c])
+        elif k == 'regtmp':
+            toks.append(['regtmp', rng.randrange(n_mc)])
+            mstack.append(1000)
+        elif k == 'remtop':
+            toks.append(['remtop'])
+            if mstack:
+                mstack.pop()
         elif k == 'regbad':
             toks.append(['regbad', rng.randrange(3)])
         elif k == 'unsafe':
@@ -283,8 +292,7 @@ def execute(h):
 
     curs = [Money.register_currency(c) for c in cfg['codes']]
     n_cur = len(curs)
-    mconvs = []
-    for spec in cfg['mconvs']:
+    def build_mconv(spec):
         base = curs[spec['base'] % n_cur]
         mc = MoneyConverter(base)
         rates = [(curs[int(j) % n_cur], Decimal(_frac(r).numerator) /
@@ -293,7 +301,9 @@ def execute(h):
                  if curs[int(j) % n_cur] is not base]
         if rates:
             mc.update(None, rates)
-        mconvs.append(mc)
+        return mc
+
+    mconvs = [build_mconv(spec) for spec in cfg['mconvs']]
     G = QuantityMeta('G', (Quantity,), {})
     gunits = [G.new_unit(f'g{i}') for i in range(3)]
 
@@ -324,6 +334,14 @@ def execute(h):
         def convert(self, qty, to_unit):
             return self(qty, to_unit)
 
+    class UStub(Stub):
+        """a legal converter that cannot be hashed (defines __eq__ only, as
+        a callable dataclass or a dict-based rate table does)"""
+        __hash__ = None
+
+        def __eq__(self, other):
+            return self is other
+
     gconvs = []
     for k, spec in enumerate(cfg['gconvs']):
         if spec['kind'] == 'table':
@@ -333,6 +351,8 @@ def execute(h):
             gconvs.append(TableConverter(tab))
         elif spec['kind'] == 'method':
             gconvs.append(_Method(Stub(k, spec['table'])))
+        elif spec['kind'] == 'unhashable':
+            gconvs.append(UStub(k, spec['table']))
         else:
             gconvs.append(Stub(k, spec['table']))
     amount = _frac(cfg['amount'])
@@ -424,7 +444,7 @@ def execute(h):
     def expected_money(p):
         if not mstack:
             return ('exc', 'UnitConversionError')
-        return answers[mstack[-1]][p]
+        return answers[mstack[-1] % 1000][p]
 
     def conv_exp(e):
         return e[:2]
@@ -470,13 +490,19 @@ def execute(h):
     def sweep(step):
         # --- registered converters, most recent first, by identity
         obs_m = list(Money.registered_converters())
-        exp_m = [mconvs[i] for i in reversed(mstack)]
+        exp_m = list(reversed(mstack))
+
+        def is_entry(x, i):
+            if i >= 1000:       # a converter nobody else refers to
+                return isinstance(x, MoneyConverter) and \
+                    all(x is not m for m in mconvs)
+            return x is mconvs[i]
         if len(obs_m) != len(exp_m) or \
-                any(x is not y for x, y in zip(obs_m, exp_m)):
+                any(not is_entry(x, i) for x, i in zip(obs_m, exp_m)):
             violate('money_stack', 'list', step,
                     expected=list(reversed(mstack)),
-                    observed=[mconvs.index(x) if x in mconvs else -1
-                              for x in obs_m])
+                    observed=[next((k for k, m in enumerate(mconvs)
+                                    if m is x), -1) for x in obs_m])
         obs_g = list(G.registered_converters())
         exp_g = [gconvs[i] for i in reversed(glist)]
         if len(obs_g) != len(exp_g) or \
@@ -667,6 +693,28 @@ def execute(h):
                     violate('money_remove', 'non_top_accepted', i, conv=c,
                             model_stack=list(mstack))
             after(i, o[0])
+        elif op == 'regtmp':
+            # a converter built on the spot, registered directly and not
+            # kept by the caller: the registry is its only referrer
+            c = t[1] % len(mconvs)
+            Money.register_converter(build_mconv(cfg['mconvs'][c]))
+            import gc
+            gc.collect()
+            mstack.append(1000 + c)
+            bump(probes, 'converter_referenced_by_registry_only')
+            after(i, 'ok')
+        elif op == 'remtop':
+            top = next(iter(Money.registered_converters()), None)
+            if top is None or not mstack:
+                after(i, 'nothing')
+            else:
+                o = observe(lambda: Money.remove_converter(top))
+                top = None
+                mstack.pop()
+                if o[0] != 'ok':
+                    violate('money_remove', 'top_refused', i,
+                            observed=list(o))
+                after(i, o[0])
         elif op == 'regbad':
             bad = [None, 17, gref(0)][t[1] % 3]
             o = observe(lambda: Money.register_converter(bad))
@@ -676,7 +724,11 @@ def execute(h):
             after(i, o[0])
         elif op == 'greg':
             g = t[1] % len(gconvs)
-            G.register_converter(gref(g))
+            o = observe(lambda: G.register_converter(gref(g)))
+            if o[0] != 'ok':
+                # any callable is a legal converter for such a type
+                violate('generic_register', 'refused', i, conv=g,
+                        kind=cfg['gconvs'][g]['kind'])
             if g in glist:
                 bump(probes, 'generic_registered_again')
             else:
@@ -807,6 +859,10 @@ def _sym(t):
     op = t[0]
     if op in ('enter', 'reg', 'rem'):
         return {'enter': 'E', 'reg': 'R', 'rem': 'X'}[op] + str(t[1] % 3)
+    if op == 'regtmp':
+        return 'T' + str(t[1] % 3)
+    if op == 'remtop':
+        return 'P.'
     if op == 'leave':
         return 'L.'
     if op == 'raise':
